@@ -118,12 +118,14 @@ def run_panic(rep, F, sets, floor, extra_rules=(), lemma_ok=None):
                 rep.bad("PANIC", key, s.sp, "site is mapped to a typed-tree node", "MIR site %s %s has no THIR node with the same span" % (s.kind, s.callee))
                 continue
             res = None
-            if F.fns[s.fn].is_helper(tail=True):
+            if F.fns[s.fn].is_helper(tail=True) or "::{closure#" in s.fn:
                 # a small helper is inlined at its call sites: the site must be safe in every caller's context
                 copies = []
                 for g in sorted(R):
                     if g == s.fn or F.fns[g].thir is None:
                         continue
+                    if F.fns[g].is_helper(tail=True) or "::{closure#" in g:
+                        continue  # itself only a fragment that is inlined elsewhere: its callers' copies are the ones that count
                     if g not in cache:
                         cache[g] = panic.index_by_span(F.fns[g])
                     for node, path in cache[g].get(s.sp, []):
